@@ -272,7 +272,8 @@ class Stream(APIRegisterMixin):
         else:
             for upstream in self.upstreams:
                 if upstream and upstream.loop:
-                    self.loop = upstream.loop
+                    # also tells the other upstreams, which may not be bound yet
+                    self._inform_loop(upstream.loop)
                     break
 
     def _inform_loop(self, loop):
